@@ -207,6 +207,8 @@ var mcPrograms = map[string]struct {
 	"C": {3, map[string][]string{"p1": {"g1", "g2"}, "p2": {"g2", "g1"}}, 0, 2},
 	"D": {1, map[string][]string{"p1": {"g1", "g2", "g2"}, "p2": {"g2", "g1"}}, 0, 2},
 	"E": {1, map[string][]string{"p1": {"g1", "g2"}, "p2": {"g2", "g1"}}, 0, 2},
+	"F": {2, map[string][]string{"p1": {"g1", "g2", "g1"}, "p2": {"g1", "par"}}, 1, 1},
+	"G": {1, map[string][]string{"p1": {"g1", "g2", "g2"}, "p2": {"g2", "g1"}}, 0, 2},
 }
 
 var subKinds = []string{"with", "withres", "withgroup", "get", "call"}
@@ -311,7 +313,7 @@ func Run(c *core.Ctx) {
 	// (M) exhaustive model checking of the repaired design, and of the liveness properties
 	mcs := []string{"A", "B"}
 	if c.Thorough() || c.Property == "C03" {
-		mcs = append(mcs, "C")
+		mcs = append(mcs, "C", "F", "G")
 	}
 	for _, k := range mcs {
 		r := core.ModelCheck(c, "MCSched", "MCSched"+k+".cfg", core.TLCOpts{Timeout: 8 * time.Minute})
@@ -343,7 +345,7 @@ func Run(c *core.Ctx) {
 	}
 	// (B2) random behaviours of the repaired model
 	nsim := c.Pick(60, 600)
-	for _, k := range []string{"A", "B", "C", "D"} {
+	for _, k := range []string{"A", "B", "C", "D", "F", "G"} {
 		behs := simulate(c, "MCSched"+k+".cfg", nsim, 90, c.Seed)
 		for i, b := range behs {
 			add(Job{Mode: "replay", Seed: c.Seed + int64(i), Prog: programForKinds(k, rng, 0, replayKinds), Steps: b, Src: fmt.Sprintf("tlc -simulate MCSched%s seed %d #%d", k, c.Seed, i)})
